@@ -240,3 +240,57 @@ func ZZC08_gc_lock_step() {
 		zzAssert(o.modRefs[r.Path].locks == before && o.modRefs[r.Path].mod, "refmod_keeps_locks")
 	}
 }
+
+// Close sequences under a held lock: a copy holds the layout's lock (taken
+// before or after the layout was first modified) while an arbitrary sequence
+// of Close calls and writes (refMod, as every BlobPut/ManifestPut of the copy
+// does) goes by. Content the copy has written but not yet linked from the
+// index is unreachable - the collector must never run while the lock is held,
+// so no file disappears. Once the lock is returned a Close after a
+// modification does collect (the lock count did not drift upwards either).
+func ZZC08_close_sequence() {
+	zzos.Reset()
+	zzos.Cur.Put(zzG+"/oci-layout", []byte(`{"imageLayoutVersion":"1.0.0"}`))
+	zzos.Cur.Put(zzG+"/index.json", []byte(`{"schemaVersion":2,"mediaType":"application/vnd.oci.image.index.v1+json","manifests":[]}`))
+	r, _ := ref.New("ocidir://" + zzG)
+	o := New(WithGC(true))
+	ctx := context.Background()
+	if zzBool("modified_before_the_lock") {
+		o.refMod(r)
+	}
+	L := zzInt("locks", 1, 2)
+	for i := 0; i < L; i++ {
+		o.GCLock(r)
+	}
+	written := 0
+	steps := 3 + zzTier()
+	for s := 0; s < steps; s++ {
+		switch zzInt("step", 0, 2) {
+		case 0: // somebody closes the layout (regsync does after every tag, found up to date or not)
+			zzAssert(o.Close(ctx, r) == nil, "close_under_a_lock_succeeds")
+		case 1: // the copy writes a blob that the index does not reach yet
+			zzPutBlob([]byte{'w', byte('0' + written)})
+			written++
+			o.refMod(r)
+		case 2: // one of two copies finishes
+			if L > 1 {
+				o.GCUnlock(r)
+				L--
+			}
+		}
+		for k := 0; k < written; k++ {
+			zzAssert(zzos.Cur.Exists(zzBlobPath(digest.FromBytes([]byte{'w', byte('0' + k)}))), "no_collection_while_a_copy_holds_the_lock")
+		}
+	}
+	zzReach("sequence_done")
+	for ; L > 0; L-- {
+		o.GCUnlock(r)
+	}
+	if written > 0 {
+		zzAssert(o.Close(ctx, r) == nil, "close_after_the_copy_succeeds")
+		zzReach("closed_after_unlock")
+		for k := 0; k < written; k++ {
+			zzAssert(!zzos.Cur.Exists(zzBlobPath(digest.FromBytes([]byte{'w', byte('0' + k)}))), "no_lock_leaked_collection_runs_afterwards")
+		}
+	}
+}
